@@ -303,6 +303,13 @@ def check_layouts(ctx):
         conn, lay = build_circuit_layers_and_connectivity(nq)
         lines.append({"kind": "chain", "qubits": nq, "conn": [list(c_) for c_ in conn.connectivity], "layers": [[list(c_) for c_ in l_] for l_ in lay.layers]})
         dims.append((nq, None))
+    # the binding must bite: a CANARY line (the last chain layout with one connection listed in two layers) has to be rejected
+    import copy
+
+    can = copy.deepcopy(lines[-1])
+    can["layers"][1] = can["layers"][1] + [can["layers"][0][0]]
+    lines.append(can)
+    dims.append(("canary", None))
     path = os.path.join(ctx.tmp, "layouts.ndjson")
     with open(path, "w") as f:
         for ln in lines:
@@ -311,6 +318,11 @@ def check_layouts(ctx):
     if tr.distinct < len(lines):
         raise TLCError("LayoutTrace consumed %d of %d lines" % (tr.distinct, len(lines)))
     rej = [e for e in tr.emitted if "reject" in e]
+    if not any(rj["reject"] == len(lines) for rj in rej):
+        raise TLCError("binding self-test failed: LayoutTrace accepted the canary line (a connection listed in two layers)")
+    ctx.by_kind["canary lines rejected by the trace specification"] = 1
+    rej = [rj for rj in rej if rj["reject"] != len(lines)]
+    lines.pop()
     for rj in rej:
         d = dims[rj["reject"] - 1]
         ctx.violation("layout:" + ",".join(sorted(rj["failed"])), "the layout built for dimensions %s is not a layering of its connectivity: %s fail" % (d, sorted(rj["failed"])), {"k": "layout", "dims": d})
@@ -364,7 +376,7 @@ def check_save_histories(ctx):
 
     quick = ctx.tier == "quick"
     depth = 5 if quick else 6
-    res = ctx.tlc("PersistHist", constants=dict(Depth=depth, Stale=False, Emitting=True), invariants=["LoadReturnsLastSaved", "LoadedIsWhatWasSaved"], constraints=["DepthBound"], action_constraints=["Emit"], view="View", workers=4, coverage=False, timeout=1800)
+    res = ctx.tlc("PersistHist", constants=dict(Depth=depth, Stale=False, Emitting=True), invariants=["LoadReturnsLastSaved", "LoadedIsWhatWasSaved"], constraints=["DepthBound"], action_constraints=["Emit"], view="View", workers=1, coverage=False, timeout=1800)
     r2 = ctx.tlc("PersistHist", constants=dict(Depth=5, Stale=True, Emitting=False), invariants=["LoadReturnsLastSaved"], constraints=["DepthBound"], view="View", workers=2, coverage=False, timeout=600, allow_violation=True)
     if "LoadReturnsLastSaved" not in r2.violated:
         raise TLCError("vacuity: a writer reusing previously serialised rows is not refuted")
